@@ -42,6 +42,10 @@ var decoyKinds = []struct {
 	{"optional-wire-uninjectable-type", reflect.TypeOf(0), `wire:",required=false"`, 0},
 	{"optional-func-uninjectable-type", reflect.TypeOf(""), `func:"Sel,required=false"`, ""},
 	{"expression", reflect.TypeOf(0), `value:"#{1+2}"`, 3},
+	// an absent key with a default that happens to be a component name of the pools (n1): the default belongs to
+	// this placeholder only
+	{"absent-with-default-n1", reflect.TypeOf(""), `value:"${decoy.absent.d:n1}"`, "n1"},
+	{"absent-prop-with-default", reflect.TypeOf(0), `prop:"decoy.absent.e:11"`, 11},
 	{"untagged", reflect.TypeOf(""), ``, ""},
 	{"foreign-tag", reflect.TypeOf(""), `json:"x" custom:"y,required=false"`, ""},
 }
